@@ -1,5 +1,91 @@
 import JSight.Model.TagName
-import JSight.Model.PathPar
-import JSight.Model.IncName
+import JSight.Proofs.C19
+/-!
+C19 — automatic tag names.  Property theorems only (helper lemmas: `JSight/Proofs/C19.lean`).
+-/
 namespace JSight.C19
+open JSight
+
+/-- `tagName "/"++s` is "@_" for empty `s`, otherwise "@" followed by the per-byte encoding -/
+theorem tagName_eq_enc (s : Bytes) :
+    tagName (B.slash :: s) = if s = [] then [B.at_, B.us] else B.at_ :: s.flatMap enc :=
+  tagName_slash_cons s
+
+/-- the per-byte encoding is decodable -/
+theorem dec_enc (s : Bytes) : dec (s.flatMap enc) = s := dec_flatMap_enc s
+
+/-- `tagName_injective` does not even need the "no '/'" hypotheses -/
+theorem tagName_injective' (s₁ s₂ : Bytes)
+    (h : tagName (B.slash :: s₁) = tagName (B.slash :: s₂)) : s₁ = s₂ := by
+  rw [tagName_slash_cons, tagName_slash_cons] at h
+  by_cases e₁ : s₁ = [] <;> by_cases e₂ : s₂ = []
+  · rw [e₁, e₂]
+  · rw [if_pos e₁, if_neg e₂] at h
+    exact absurd (List.tail_eq_of_cons_eq h).symm (flatMap_enc_ne_us s₂)
+  · rw [if_neg e₁, if_pos e₂] at h
+    exact absurd (List.tail_eq_of_cons_eq h) (flatMap_enc_ne_us s₁)
+  · rw [if_neg e₁, if_neg e₂] at h
+    exact flatMap_enc_injective (List.tail_eq_of_cons_eq h)
+
+/-- the automatic tag name is injective on first segments (for ALL byte strings without '/') -/
+theorem tagName_injective (s₁ s₂ : Bytes) (h₁ : B.slash ∉ s₁) (h₂ : B.slash ∉ s₂)
+    (h : tagName (B.slash :: s₁) = tagName (B.slash :: s₂)) : s₁ = s₂ := by
+  -- the hypotheses `h₁ h₂` are not needed: a '/' inside the segment is escaped to "_2F"
+  have _ := h₁; have _ := h₂
+  exact tagName_injective' s₁ s₂ h
+
+/-- the title computed from a path is "/" followed by a component without '/' -/
+theorem pathTagTitle_shape (p : Bytes) : ∃ seg, pathTagTitle p = B.slash :: seg ∧ B.slash ∉ seg := by
+  unfold pathTagTitle
+  cases hd : dropEmptyDot (splitSlash p) with
+  | nil => exact ⟨[], rfl, by simp⟩
+  | cons q t =>
+    refine ⟨q, rfl, ?_⟩
+    apply splitSlash_noSlash p
+    apply dropEmptyDot_subset
+    rw [hd]; exact List.mem_cons_self
+
+/-- declarative reading of pathTagTitle: the first component that is neither "" nor "." -/
+theorem pathTagTitle_spec (p : Bytes) :
+    pathTagTitle p =
+      match (splitSlash p).find? (fun c => !(decide (c = []) || decide (c = [B.dot]))) with
+      | some seg => B.slash :: seg
+      | none => [B.slash] := by
+  rw [pathTagTitle_head?, dropEmptyDot_head?]
+  cases List.find? _ (splitSlash p) <;> rfl
+
+/-- different first segments get different automatic tag names -/
+theorem auto_tag_injective (p₁ p₂ : Bytes)
+    (h : tagName (pathTagTitle p₁) = tagName (pathTagTitle p₂)) : pathTagTitle p₁ = pathTagTitle p₂ := by
+  obtain ⟨g₁, e₁, n₁⟩ := pathTagTitle_shape p₁
+  obtain ⟨g₂, e₂, n₂⟩ := pathTagTitle_shape p₂
+  rw [e₁, e₂] at h ⊢
+  rw [tagName_injective g₁ g₂ n₁ n₂ h]
+
+/-! ### non-vacuity checks on concrete byte strings -/
+
+-- tagName "/a_b c" = "@a__b_20c"
+example : tagName [47, 97, 95, 98, 32, 99] = [64, 97, 95, 95, 98, 95, 50, 48, 99] := by decide
+-- tagName "/" = "@_"
+example : tagName [47] = [64, 95] := by decide
+-- tagName "/%" = "@_25",  tagName "/_" = "@__"
+example : tagName [47, 37] = [64, 95, 50, 53] := by decide
+example : tagName [47, 95] = [64, 95, 95] := by decide
+-- tagName "/\xff~" = "@_FF~"
+example : tagName [47, 255, 126] = [64, 95, 70, 70, 126] := by decide
+-- the decoder inverts the encoding on a concrete string
+example : dec ([97, 95, 98, 32, 99, 37, 255].flatMap enc) = [97, 95, 98, 32, 99, 37, 255] := by decide
+-- splitSlash "/./cats/{id}" = ["", ".", "cats", "{id}"]
+example : splitSlash [47, 46, 47, 99, 97, 116, 115, 47, 123, 105, 100, 125]
+    = [[], [46], [99, 97, 116, 115], [123, 105, 100, 125]] := by decide
+-- pathTagTitle "/./cats/{id}" = "/cats",  pathTagTitle "//." = "/"
+example : pathTagTitle [47, 46, 47, 99, 97, 116, 115, 47, 123, 105, 100, 125]
+    = [47, 99, 97, 116, 115] := by decide
+example : pathTagTitle [47, 47, 46] = [47] := by decide
+-- tagName (pathTagTitle "/my_cats/x") = "@my__cats"
+example : tagName (pathTagTitle [47, 109, 121, 95, 99, 97, 116, 115, 47, 120])
+    = [64, 109, 121, 95, 95, 99, 97, 116, 115] := by decide
+-- two different paths with different first segments get different tag names
+example : tagName (pathTagTitle [47, 97, 47, 98]) ≠ tagName (pathTagTitle [47, 97, 95]) := by decide
+
 end JSight.C19
